@@ -61,4 +61,25 @@ def oracle(ctx, budget=1, replay=None, hints=None):
         for l, v in want.items():
             if cur[l] != v and len(fails) < 10:
                 fails.append(dict(what='after %r the tracked %s is %r, the last value given is %r' % (cmd, l, cur[l], v), signature='C19:last-wins', case=dict(input=cmd)))
+    # the arc handlers read their words the same way: flags anywhere, repeated letters, either case
+    for _ in range(150 * budget):
+        n += 1
+        h = impl.new_handlers([])
+        impl.run(h, ['G28', 'G1 X10 Y10 Z1 E1 F900'])
+        ex, ey = ctx.rng.choice([(30.0, 10.0), (20.0, 20.0), (20.0, 0.0)])
+        words = [('X', ex), ('Y', ey), ('I', 10.0), ('J', 0.0)]
+        ctx.rng.shuffle(words)
+        parts = []
+        for l, v in words:
+            if ctx.rng.random() < 0.3:
+                parts.append(ctx.rng.choice(['S', 'E', 'P', l, l.lower()]))           # a flag in front
+            if ctx.rng.random() < 0.15:
+                parts.append('%s%s' % (l, v + 3))                                      # an earlier value that is overridden
+            parts.append(ctx.rng.choice(['%s%s', '%s %s', '%s%s ']) % (l if ctx.rng.random() < 0.7 else l.lower(), v))
+        cmd = ctx.rng.choice(['G2 ', 'G3 ', 'G02 ']) + ' '.join(parts)
+        impl.run(h, [cmd])
+        p = h.state.position
+        if (p.X_AXIS.current, p.Y_AXIS.current) != (ex, ey) and len(fails) < 10:
+            fails.append(dict(what='after %r the tracked position is (%r, %r), the last values given are (%r, %r)' % (cmd, p.X_AXIS.current, p.Y_AXIS.current, ex, ey),
+                              signature='C19:last-wins-arc', case=dict(input=cmd)))
     return dict(evaluations=n, failures=fails, samples=[WS.spell(ctx.rng, WS.rnd_words(ctx.rng)) for _ in range(3)], distribution=dict(spelled=4000 * budget, handler=600 * budget))
